@@ -11,6 +11,7 @@ import ast
 import builtins
 import hashlib
 import importlib
+import functools
 import inspect
 import re
 import itertools
@@ -188,6 +189,13 @@ class PBound(object):
 
 SHARED_MUTATORS = frozenset(('append', 'extend', 'insert', 'pop', 'remove', 'clear', 'sort', 'reverse', 'add', 'discard', 'update',
                              'setdefault', 'popitem', '__setitem__', '__delitem__'))
+
+
+class PEnum(object):
+    """enumerate(seq) over a symbolic sequence: element i is the pair (i, seq[i])."""
+
+    def __init__(self, seq):
+        self.seq = seq
 
 
 class PGen(object):
@@ -1246,7 +1254,8 @@ class Engine(object):
             else:
                 if name in names_assigned:
                     continue
-                obj = frame.lookup(name)
+                # (a recording double the contract keeps in its environment may be named in Loop(modifies=...) too)
+                obj = frame.lookup(name) if frame.has(name) or name not in self.c.env else self.c.env[name]
                 ty = L.types.get(name)
             if isinstance(obj, PList):
                 if ty is None:
@@ -1403,7 +1412,7 @@ class Engine(object):
             return list(it)
         if isinstance(it, (str,)):
             return list(it)
-        if isinstance(it, (SSeq, SStr, SEnc, SEncMap, PAbsSeq)):
+        if isinstance(it, (SSeq, SStr, SEnc, SEncMap, PAbsSeq, PEnum)):
             return it
         if isinstance(it, PObj) and isinstance(it.fields.get('__iter__'), PExt):
             return self.iter_contents(self.call(it.fields['__iter__'], [], {}, None))
@@ -1431,10 +1440,14 @@ class Engine(object):
             return len(seq)
         if isinstance(seq, PAbsSeq):
             return seq.n
+        if isinstance(seq, PEnum):
+            return z3.Length(seq.seq.t)
         return z3.Length(seq.t)
 
     def seq_at(self, seq, i):
         """element at (non-negative, in range) index term i."""
+        if isinstance(seq, PEnum):
+            return (SInt(i if not isinstance(i, int) else z3.IntVal(i)), self.seq_at(seq.seq, i))
         if isinstance(seq, PAbsSeq):
             self.assume(z3.Or(*[seq.kind(i) == k for k in seq.kinds]))     # type invariant of the sequence
             for k in seq.kinds:
@@ -2927,6 +2940,11 @@ class Engine(object):
             return c if fn is tuple else PList(c)     # symbolic: immutable SSeq stands for the tuple
         if fn is next:
             return self.builtin_next(args[0], node)
+        if fn is functools.partial and args:
+            # functools.partial(f, *a, **k): a callable that calls f with the stored arguments in front
+            f0, a0, k0 = args[0], list(args[1:]), dict(kwargs)
+            return PExt('partial(%s)' % getattr(f0, 'name', getattr(f0, '__name__', 'f')),
+                        lambda e, a2, k2: e.call(f0, a0 + list(a2), dict(k0, **k2), node))
         if fn is iter and len(args) == 1:
             # a fresh one-shot iterator over the contents (consumed by next() / for); iter(it) of an iterator is the iterator
             if isinstance(args[0], PGen):
@@ -2960,6 +2978,8 @@ class Engine(object):
                 raise
         if fn is sorted or fn is reversed or fn is enumerate or fn is zip or fn is range or fn is min or fn is max or fn is sum or fn is abs or fn is all or fn is any:
             cargs = []
+            if fn is enumerate and len(args) == 1 and not kwargs and isinstance(args[0], (PList, PGen)) and isinstance(self.list_contents(args[0]), SSeq):
+                return PEnum(self.list_contents(args[0]))     # pairs (i, element i) over a sequence of any length
             for a in args:
                 if isinstance(a, (PList, PGen)):
                     c = self.list_contents(a)
